@@ -114,7 +114,7 @@ class World(object):
         B.execute(cmd)
         self.maxDepthB = max(self.maxDepthB, B.depth())
         isMove = code in ("G0", "G1", "G2", "G3") and any(wd.get(a) is not None for a in "XYZ")
-        destIn = self.enabled and inside(B.p["X"], B.p["Y"], self.regions)
+        destIn = self.enabled and (inside(B.p["X"], B.p["Y"], self.regions) or getattr(self, "arcHit", False))
         closing = False
         if isMove:
             if destIn: self.episode = True
